@@ -13,8 +13,8 @@ import systems  # noqa: E402
 
 sid = int(sys.argv[1]); npseed = int(sys.argv[2]); niter = int(sys.argv[3])
 rng = random.Random(sid)          # construction code is identical in every process
-if sid % 3 == 2:
-    system, _ = systems.random_loop_system(rng, size=2 + sid % 2, name=f'h{sid}')
+if sid % 2 == 1:
+    system, _ = systems.random_loop_system(rng, size=2 + (sid // 2) % 2, name=f'h{sid}', extra=True)
 else:
     system, _ = systems.random_chain_system(rng, ncomp=2 + sid % 3, with_alpha=False, name=f'h{sid}')
 np.random.seed(npseed)
